@@ -5,7 +5,11 @@ virtual-time loop.  A simulated producer looks at every Interest the application
 per-Interest script, answers with Data (FinalBlockId markers as the case says), answers with Data that the validator
 rejects, sends a network Nack, or stays silent (then the clock is advanced past the Interest lifetime).  In the busy stream
 the application does other things meanwhile (case['others']: Interests of other components, a second fetch, incoming
-Interests); what the fetch yields and when it fails is judged exactly as when it is alone."""
+Interests); what the fetch yields and when it fails is judged exactly as when it is alone.  In the validating stream the
+user's validator is a script too (case['val']): per call it takes its time, accepts, rejects, RAISES - the classes the
+library itself uses for control flow among them - or uses the library itself (fetches a certificate under its own time
+limit); a Data that reached the consumer in time and whose validation failed is a validation failure, never a timeout."""
+import os
 import re
 from apphelp import AppRig
 
@@ -67,7 +71,18 @@ RULE = ('objects: unsegmented (Data named exactly the prefix / with a version / 
         'any time; a second segment_fetcher with another timeout / limit and its own loss script runs beside it (judged by the '
         'same oracle; of the same or of another object); Interests arrive for '
         'prefixes the application serves (the fetched prefix among them) and its handler replies or not; every packet that '
-        'reaches the application counts for the fate of the fetcher\'s Interest it matches, whoever asked for it; non-trivial = at least two Interests were sent and something was yielded or a retry happened; '
+        'reaches the application counts for the fate of the fetcher\'s Interest it matches, whoever asked for it; a validating '
+        'stream (oracle only): the user\'s validator - given to segment_fetcher or installed as the application\'s data_validator - '
+        'follows a script per call: accepts, rejects, takes 0 .. 3 lifetimes (alone or on top of the answer\'s travel time), raises '
+        '(builtin / asyncio TimeoutError and a subclass, CancelledError, InterestNack, InterestCanceled, ValidationFailure, '
+        'NetworkError, DecodeError, KeyError, IndexError, ValueError, TypeError, AttributeError, AssertionError, OSError, '
+        'ConnectionResetError, InvalidStateError, StopIteration, StopAsyncIteration, RuntimeError, an exception class of the '
+        'user\'s), gives up on something with asyncio.wait_for, awaits a task of its own that was cancelled, or fetches a '
+        'certificate with express_interest on the same application while the segment\'s Interest is being completed (answered, '
+        'answered slowly, Nacked, or abandoned at the validator\'s own time limit) - at the discovery Interest / a middle / the '
+        'last segment, once or at every call, also after losses and with other traffic on the application: whatever the '
+        'validator raised (or ValidationFailure) must come out of the fetch at that Interest, which is not requested again, and '
+        'a slow validator is no timeout; non-trivial = at least two Interests were sent and something was yielded or a retry happened; '
         'distinct = distinct (object, discovery, limit, script)')
 
 PREFIX = '/obj'
@@ -179,7 +194,7 @@ def _targeted(rng, tier):
 
 def _oracle_only(case):
     o = case['obj']
-    return bool(o.get('content') or o.get('fbi_type') or case.get('others') or case.get('start'))
+    return bool(o.get('content') or o.get('fbi_type') or case.get('others') or case.get('start') or case.get('val'))
 
 
 def _delay(rng, T, o):
@@ -389,6 +404,126 @@ def _busy(rng, tier):
         yield case
 
 
+# -- the user's validator follows a script (checked by the oracle only) ------------------------------------------------
+# case['val'] = {'via': 'arg' | 'app', 'script': [action of the 1st call, of the 2nd call, ...]}  (further calls: {'do': 'ok'})
+#   'via': the validator is given to segment_fetcher(validator=...) / is the application's data_validator (validator=None)
+#   action = {'do': .., 'lat': ms the validator takes before it does it (default 0), ...}
+#     ok             the verdict the packet deserves (the DigestSha256 signature is checked, as in every other stream)
+#     false          rejects
+#     raise, cls     raises an exception of that class (VAL_RAISES)
+#     waitfor, w     gives up on something of its own after w ms with asyncio.wait_for -> builtin TimeoutError
+#     inner-cancel   awaits a task of its own that somebody cancelled -> CancelledError
+#     cert, ans, lt, dly, bound   re-entrancy: fetches a certificate with express_interest on the same application (lifetime
+#                    lt; the producer answers with Data / a Nack / not at all after dly ms), under asyncio.wait_for(bound ms)
+#                    if bound is given; with the certificate: the verdict the packet deserves, otherwise whatever came out
+VAL_RAISES = ['TimeoutError', 'asyncio.TimeoutError', 'TimeoutError-subclass', 'CancelledError', 'InterestNack', 'InterestCanceled',
+              'ValidationFailure', 'NetworkError', 'DecodeError', 'KeyError', 'IndexError', 'ValueError', 'TypeError',
+              'AttributeError', 'AssertionError', 'OSError', 'ConnectionResetError', 'InvalidStateError', 'StopIteration',
+              'StopAsyncIteration', 'RuntimeError', 'user-defined']
+# A validator that lets an InterestTimeout escape (its own certificate Interest timed out): see _val_timeouts()
+VAL_RAISES_TIMEOUT = ['InterestTimeout', 'InterestTimeout-subclass']
+
+
+def _val_timeouts():
+    """FINDING on the unchanged library (reported, not in the default stream): segment_fetcher's retry loop takes an
+    InterestTimeout that came out of the user's VALIDATOR (e.g. the validator's own certificate Interest timed out) for a
+    timeout of the segment's Interest - the segment, which was answered in time, is requested again and the validation failure is
+    skipped (or ends as the fetch's timeout).  VERIF_C19_VALIDATOR_INTEREST_TIMEOUT=1 puts these validators into the stream."""
+    return os.environ.get('VERIF_C19_VALIDATOR_INTEREST_TIMEOUT') == '1'
+
+
+def _val_failures(rng, T):
+    """every way in which a validation fails"""
+    f = [{'do': 'false'}] + [{'do': 'raise', 'cls': c} for c in VAL_RAISES + (VAL_RAISES_TIMEOUT if _val_timeouts() else [])]
+    f += [{'do': 'waitfor', 'w': max(1, T // 50)}, {'do': 'waitfor', 'w': 2 * T}, {'do': 'inner-cancel'},
+          {'do': 'cert', 'ans': 't', 'lt': 4 * T, 'dly': 0, 'bound': max(1, T // 10)},
+          {'do': 'cert', 'ans': 'd', 'lt': 4 * T, 'dly': 2 * T, 'bound': T + 1},
+          {'do': 'cert', 'ans': 'n', 'lt': T, 'dly': T // 10}, {'do': 'cert', 'ans': 'n', 'lt': 4 * T, 'dly': T + 1}]
+    if _val_timeouts():
+        f += [{'do': 'cert', 'ans': 't', 'lt': max(1, T // 4), 'dly': 0}, {'do': 'cert', 'ans': 'd', 'lt': T, 'dly': T}]
+    return f
+
+
+def _val_lat(rng, T):
+    return rng.choice([1, T // 10, T // 2, max(0, T - 1), T, T + 1, 2 * T, 3 * T])
+
+
+def _validating_targeted(rng, tier):
+    """the grid: every way in which a validation fails x at the discovery Interest / a middle segment / the last one x once or
+    at every call x validator given to the fetcher / installed on the application; validators that take around / beyond a
+    lifetime (alone, or together with the answer's travel time) and then accept, reject or raise; validators that fetch
+    a certificate first and accept (quickly, or after more than the segment's lifetime)"""
+    seg3 = {'kind': 'seg', 'fbi': [None, None, 2]}
+    ok = {'do': 'ok'}
+    i = 0
+    for T in ((1000,) if tier == 'quick' else (1000, 50, 4000)):
+        base = {'obj': seg3, 'disc': 0, 'timeout_ms': T, 'fresh': True, 'script': ''}
+        for f in _val_failures(rng, T):
+            for pos in (0, 1, 2):
+                for always in (False, True):
+                    i += 1
+                    yield dict(base, retry=rng.choice([1, 2, 3, 4]), disc=rng.choice([0, 0, 1, 2]),
+                               val={'via': 'app' if i % 3 == 0 else 'arg', 'script': [ok] * pos + [f] * (12 if always else 1)})
+            i += 1
+            # after losses, the answers travelling; an unsegmented object
+            yield dict(base, retry=3, script='tdttd', delays=[0, T // 4, 0, 0, T - 1],
+                       val={'via': 'app' if i % 3 == 0 else 'arg', 'script': [ok, dict(f, lat=rng.choice([0, 1, T // 4]))]})
+            yield dict(base, obj={'kind': 'unseg', 'name': rng.choice(['exact', 'version', 'generic'])}, retry=rng.choice([1, 3]),
+                       val={'via': 'arg' if i % 3 == 0 else 'app', 'script': [f] * rng.choice([1, 12])})
+        # slow validators: the lifetime is the Interest's, not the validator's
+        for lat in (T // 2, T - 1, T, T + 1, 3 * T):
+            for pos in (0, 1, 2):
+                for then in (ok, {'do': 'false'}, {'do': 'raise', 'cls': 'TimeoutError'}, {'do': 'raise', 'cls': 'user-defined'},
+                             {'do': 'cert', 'ans': 'd', 'lt': 4 * T, 'dly': T // 2}):
+                    i += 1
+                    d = rng.choice([0, T // 2, T - 1])
+                    yield dict(base, retry=rng.choice([1, 2, 3]), script='ddd', delays=[d, d, d],
+                               val={'via': 'app' if i % 3 == 0 else 'arg', 'script': [ok] * pos + [dict(then, lat=lat)] * 12})
+        # every validation needs a certificate that is fetched first: quickly, slowly, longer than the segment's lifetime
+        for dly in (0, T // 2, T, 2 * T + 1):
+            for bound in (None, 3 * T):
+                i += 1
+                c = {'do': 'cert', 'ans': 'd', 'lt': 4 * T, 'dly': dly}
+                if bound:
+                    c['bound'] = bound
+                yield dict(base, retry=rng.choice([1, 3]), script='dtd', delays=[T // 4, 0, T // 4],
+                           val={'via': 'app' if i % 2 else 'arg', 'script': [c] * 6})
+
+
+def _val_action(rng, T, fails):
+    r = rng.random()
+    if r < 0.62:
+        a = {'do': 'ok'}
+    elif r < 0.7:
+        a = {'do': 'cert', 'ans': 'd', 'lt': rng.choice([T, 4 * T]), 'dly': rng.choice([0, 1, T // 4, T - 1])}
+    else:
+        a = dict(rng.choice(fails))
+    if rng.random() < 0.3:
+        a['lat'] = _val_lat(rng, T)
+    return a
+
+
+def _validating(rng, tier):
+    n = 260 if tier == 'quick' else 12000
+    for k in range(n):
+        case = _delayed_one(rng)
+        T = max(1, case['timeout_ms'])
+        nreq = len(case['obj'].get('fbi', [])) + 2
+        if rng.random() < 0.7:
+            # mostly: the network behaves, the validator does not
+            case['script'] = case['script'].replace('n', 'd').replace('v', 'd')
+        fails = _val_failures(rng, T)
+        case['val'] = {'via': rng.choice(['arg', 'arg', 'app']),
+                       'script': [_val_action(rng, T, fails) for _ in range(rng.randint(1, nreq + 1))]}
+        if rng.random() < 0.2:
+            # the fetch is not alone on its application either
+            case['others'] = [_other_int(rng, T, rng.choice([-1, 0, 1, 1, 2])) if rng.random() < 0.75 else
+                              {'kind': 'in', 'at': rng.choice([0, 1, 2]), 'lag': rng.choice([0, 1, T // 10]), 'cbp': rng.random() < 0.5,
+                               'name': rng.choice(['cur', 'next', 'prefix', 'unrelated']), 'reply': rng.random() < 0.6}
+                              for _ in range(rng.choice([1, 1, 2]))]
+        yield case
+
+
 def cases(rng, tier):
     yield from _targeted(rng, tier)
     yield from _delayed_targeted(rng, tier)
@@ -417,6 +552,8 @@ def cases(rng, tier):
         yield case
     yield from _busy_targeted(rng, tier)
     yield from _busy(rng, tier)
+    yield from _validating_targeted(rng, tier)
+    yield from _validating(rng, tier)
 
 
 def _shrink_others(case):
@@ -452,7 +589,31 @@ def _shrink_others(case):
         yield {a: b for a, b in case.items() if a != 'start'}
 
 
+def _shrink_val(case):
+    v = case['val']
+    sc = v['script']
+    if all(a == {'do': 'ok'} for a in sc) and v['via'] == 'arg':
+        yield {a: b for a, b in case.items() if a != 'val'}
+    if sc:
+        yield dict(case, val=dict(v, script=sc[:-1]))
+    if len(sc) > 3 and sc[-1] == sc[-2]:
+        yield dict(case, val=dict(v, script=sc[:len(sc) // 2 + 1]))
+    for i, a in enumerate(sc):
+        def put(b):
+            return dict(case, val=dict(v, script=sc[:i] + [b] + sc[i + 1:]))
+        if a.get('lat'):
+            yield put({k: x for k, x in a.items() if k != 'lat'})
+            if a['lat'] > 1:
+                yield put(dict(a, lat=a['lat'] // 2))
+        elif a != {'do': 'ok'}:
+            yield put({'do': 'ok'})
+    if v['via'] == 'app':
+        yield dict(case, val=dict(v, via='arg'))
+
+
 def shrink(case):
+    if case.get('val'):
+        yield from _shrink_val(case)
     if case.get('others'):
         yield from _shrink_others(case)
     s = case['script']
@@ -501,6 +662,35 @@ def _delays(case):
 
 
 OTHER_NONCE = 0xC1900000      # nonces the harness gives to the Interests of the other components (the fetchers draw theirs)
+VAL_NONCE = 0xC1A00000        # ... to the Interests the scripted validator expresses (VAL_NONCE + number of the validator call)
+CERT_PREFIX = '/keys/cert'
+
+
+def _val_exception(cls, name, sig):
+    """an exception of the class a scripted validator is to raise"""
+    import asyncio
+    from ndn import types as ndn_types
+    from ndn import encoding as enc
+    from ndn.encoding.tlv_model import DecodeError
+    if cls == 'TimeoutError-subclass':
+        return type('CertificateLookupTimeout', (TimeoutError,), {})()
+    if cls == 'InterestTimeout-subclass':
+        return type('CertificateInterestTimeout', (ndn_types.InterestTimeout,), {})()
+    if cls == 'user-defined':
+        return type('ScriptedValidatorError', (Exception,), {})('scripted')
+    if cls == 'InterestNack':
+        return ndn_types.InterestNack(100)
+    if cls == 'ValidationFailure':
+        return ndn_types.ValidationFailure(name, enc.MetaInfo(), b'certificate', sig)
+    if cls == 'KeyError':
+        return KeyError('no such key')
+    table = {'TimeoutError': TimeoutError, 'asyncio.TimeoutError': asyncio.TimeoutError, 'CancelledError': asyncio.CancelledError,
+             'InterestTimeout': ndn_types.InterestTimeout, 'InterestCanceled': ndn_types.InterestCanceled,
+             'NetworkError': ndn_types.NetworkError, 'DecodeError': DecodeError, 'IndexError': IndexError, 'ValueError': ValueError,
+             'TypeError': TypeError, 'AttributeError': AttributeError, 'AssertionError': AssertionError, 'OSError': OSError,
+             'ConnectionResetError': ConnectionResetError, 'InvalidStateError': asyncio.InvalidStateError,
+             'StopIteration': StopIteration, 'StopAsyncIteration': StopAsyncIteration, 'RuntimeError': RuntimeError}
+    return table[cls]()
 
 
 def run_impl(case):
@@ -533,6 +723,9 @@ def run_impl(case):
                       'idx': idx, 'scheduled': False, 'same': bool(o.get('same')),
                       'prefix': prefix if o.get('same') else Name.from_str(PREFIX2)}
     others_out = {}
+    val = case.get('val')
+    vscript = list(val['script']) if val else []
+    vcount = itertools.count()
 
     def content_of(i, normal):
         # 'empty' = a Content element of length 0, 'absent' = no Content element
@@ -560,6 +753,47 @@ def run_impl(case):
             h.update(blk)
         return bytes(sig.signature_value_buf) == h.digest()
 
+    async def scripted_validator(name, sig, *a):
+        # the user's validator of the validating stream: what it does at its k-th call is case['val']['script'][k]; what it
+        # was called for and what came out of it is recorded (event V) - the oracle judges by what the validator DID
+        k = next(vcount)
+        act = vscript[k] if k < len(vscript) else {'do': 'ok'}
+        do = act['do']
+        ev = {'k': 'V', 't': now_ms(), 'call': k, 'do': do + (':' + act['cls'] if do == 'raise' else ''), 'name': Name.to_str(name),
+              'out': None}
+        events.append(ev)
+        own_cancel = do == 'inner-cancel' or (do == 'raise' and act['cls'] == 'CancelledError')
+        try:
+            if act.get('lat'):
+                await asyncio.sleep(act['lat'] / 1000.0)
+            if do == 'raise':
+                raise _val_exception(act['cls'], name, sig)
+            if do == 'waitfor':
+                await asyncio.wait_for(rig.loop.create_future(), timeout=act['w'] / 1000.0)
+            elif do == 'inner-cancel':
+                inner = rig.loop.create_task(asyncio.sleep(3600))
+                rig.loop.call_soon(inner.cancel)
+                await inner
+            elif do == 'cert':
+                co = rig.app.express_interest(Name.from_str(CERT_PREFIX) + [Component.from_number(k, Component.TYPE_GENERIC)],
+                                              validator=validator, lifetime=act['lt'], nonce=VAL_NONCE + k)
+                if act.get('bound') is not None:
+                    await asyncio.wait_for(co, timeout=act['bound'] / 1000.0)
+                else:
+                    await co
+            verdict = False if do == 'false' else await validator(name, sig)
+            ev['out'] = 'True' if verdict else 'False'
+            return verdict
+        except asyncio.CancelledError as e:
+            # its own (scripted) cancellation, or the caller of the validator gave it up
+            ev['out'] = 'raise:' + type(e).__name__ if own_cancel else 'abandoned'
+            raise
+        except BaseException as e:
+            ev['out'] = 'raise:' + type(e).__name__
+            raise
+        finally:
+            ev['t_end'] = now_ms()
+
     with AppRig('v1') as rig:
         t0 = rig.loop.time()
         _settle = rig.loop.settle
@@ -578,14 +812,19 @@ def run_impl(case):
                 async for c in gen:
                     F['yielded'].append(None if c is None else bytes(c))
                 F['box']['end'] = 'done'
-            except Exception as e:     # noqa
+            except (BaseException if val else Exception) as e:     # noqa  (a scripted validator may raise CancelledError)
                 F['box']['end'] = type(e).__name__
                 F['box']['reason'] = getattr(e, 'reason', None)
             F['box']['end_ms'] = now_ms()
 
         def start_fetch(F, start=0):
+            v = validator
+            if val and F is main:
+                v = scripted_validator
+                if val['via'] == 'app':
+                    rig.app.data_validator, v = scripted_validator, None
             gen = segment_fetcher(rig.app, given if F is main else list(F['prefix']), timeout=F['T'], retry_times=F['retry'],
-                                  validator=validator, must_be_fresh=F['fresh'])
+                                  validator=v, must_be_fresh=F['fresh'])
             F['task'] = rig.loop.create_task(consume(F, gen, start))
 
         # ---- the other components of the application
@@ -692,6 +931,17 @@ def run_impl(case):
                     events.append({'k': 'I', 't': now_ms(), 'req': '?'})
                     continue
                 name = [bytes(c) for c in name]
+                if val and param.nonce is not None and VAL_NONCE <= param.nonce < VAL_NONCE + len(vscript):
+                    # the validator's own Interest (for a certificate): answered as its script says
+                    act = vscript[param.nonce - VAL_NONCE]
+                    events.append({'k': 'O', 't': now_ms(), 'what': 'validator-interest', 'name': Name.to_str(name)})
+                    if act.get('ans') in ('d', 'n'):
+                        wire = (bytes(make_network_nack(w, 100)) if act['ans'] == 'n' else
+                                bytes(enc.make_data(name, enc.MetaInfo(), b'certificate', signer=signer)))
+                        heapq.heappush(flight, (now_ms() + act.get('dly', 0), next(order), wire,
+                                                {'k': 'P', 'kind': act['ans'], 'for': None, 'req': '~validator', 'seg': None,
+                                                 'unseg': False, 'val': True}))
+                    continue
                 if busy and param.nonce is not None and OTHER_NONCE <= param.nonce < OTHER_NONCE + len(others):
                     answer_other(param.nonce - OTHER_NONCE, w, name, param)
                     continue
@@ -821,7 +1071,7 @@ def run_impl(case):
             start_fetch(main, case.get('start', 0))
             rig.loop.settle()
             steps = 0
-            limit = (len(fbis) + 3) * (max(1, case['retry']) + 3) * 4 + 40 + 4 * len(case['script'])
+            limit = (len(fbis) + 3) * (max(1, case['retry']) + 3) * 4 + 40 + 4 * len(case['script']) + 8 * len(vscript)
             for o in others:
                 limit += 8 if o['kind'] != 'fetch' else (len(fbis) + 3) * (max(1, o['retry']) + 3) * 4 + 4 * len(o['script'])
             pump()
@@ -955,8 +1205,10 @@ def _fates(case, impl):
     T = case['timeout_ms']
     ints, fate, cur = [], [], None
     for ev in impl['events']:
-        if ev['k'] == 'O' or (ev['k'] == 'I' and ev.get('who', 1) != impl.get('who', 1)):
-            continue        # what other components of the application did / Interests of another fetch
+        if ev['k'] in 'OV' or (ev['k'] == 'I' and ev.get('who', 1) != impl.get('who', 1)):
+            continue        # what other components of the application did / the validator was called / Interests of another fetch
+        if ev['k'] == 'P' and ev.get('val'):
+            continue        # a certificate (or a Nack) for the validator: under another prefix, it answers no Interest of a fetch
         if ev['k'] == 'P' and bool(ev.get('obj2')) != bool(impl.get('obj2')):
             continue        # a packet of another object
         if ev['k'] == 'I':
@@ -982,6 +1234,26 @@ def _fates(case, impl):
                           f"{ints[cur][1]} ms (lifetime {T}) had neither been answered nor timed out")
         fate[cur] = 't'
     return [[r, f] for (r, _), f in zip(ints, fate)], None
+
+
+def _validator_failures(impl):
+    """{number of the Interest (of this fetch): (what the user's validator did, the ends of the fetch that are that failure)}
+    for every Interest during which the validator was consulted and did not accept: it rejected (the fetch must end with
+    ValidationFailure) or raised (that exception, or a ValidationFailure made of it, must come out of the fetch; a
+    StopIteration / StopAsyncIteration cannot leave a coroutine / an async generator as it is - Python turns it into a
+    RuntimeError).  A validator its caller gave up (cancelled from outside) has not spoken."""
+    out, cur = {}, -1
+    for ev in impl['events']:
+        if ev['k'] == 'I' and ev.get('who', 1) == impl.get('who', 1):
+            cur += 1
+        elif ev['k'] == 'V' and cur >= 0 and ev['out'] not in (None, 'True', 'abandoned'):
+            what, ends = out.get(cur, ('', set()))
+            ends = ends | {'ValidationFailure'}
+            if ev['out'].startswith('raise:'):
+                cls = ev['out'][6:]
+                ends |= {cls} | ({'RuntimeError'} if cls in ('StopIteration', 'StopAsyncIteration') else set())
+            out[cur] = ((what + ', ' if what else '') + ('rejected' if ev['out'] == 'False' else 'raised ' + ev['out'][6:]), ends)
+    return out
 
 
 def oracle(case, impl):
@@ -1020,7 +1292,18 @@ def _judge(case, impl):
     if fault:
         return fault
     # Nack / validation failure propagate
+    vfail = _validator_failures(impl) if case.get('val') else {}
     for k, (r, o) in enumerate(log):
+        if o in 'dv' and k in vfail:
+            # a Data reached the consumer in time for this Interest and the user's validator did not accept it
+            what, ends = vfail[k]
+            if k != len(log) - 1:
+                return (f'validation failure on {r} (the validator {what}) was skipped: the fetch went on' if log[k + 1][0] != r else
+                        f'{r} was requested again although it had been answered (in time; the validator {what}: a validation '
+                        f'failure, not a timeout)')
+            if end not in ends:
+                return f'validation failure on {r} (the validator {what}) did not propagate: fetch ended with {end}'
+            return None
         if o in 'nv':
             want = 'InterestNack' if o == 'n' else 'ValidationFailure'
             if k != len(log) - 1:
@@ -1103,6 +1386,17 @@ def tags(case, impl):
         t.append('other-when:' + ('before-the-fetch' if x['at'] < 0 else 'discovery' if x['at'] == 0 else 'segments'))
     if impl.get('second'):
         t.append('second-fetch-end:' + impl['second']['end'])
+    if case.get('val'):
+        t.append('validator-via:' + case['val']['via'])
+        for ev in impl['events']:
+            if ev['k'] == 'V':
+                t.append('validator:' + ev['do'])
+                t.append('validator-outcome:' + str(ev['out']))
+                if ev.get('t_end', ev['t']) > ev['t']:
+                    d = ev['t_end'] - ev['t']
+                    t.append('validator-takes:' + ('below' if d < T else 'exactly' if d == T else 'more-than') + '-a-lifetime')
+        t.append('validator-failed-at:' + ','.join(sorted({'discovery' if impl['log'][k][0] == 'D' else 'segment'
+                                                            for k in _validator_failures(impl) if k < len(impl['log'])})))
     # a packet sent in answer to one Interest that decided another one
     fates, _ = _fates(case, impl)
     if fates is not None:
